@@ -14,7 +14,7 @@ MAPS = ("self._wd_for_path", "self._path_for_wd", "self._moved_from_events")
 
 
 class ReaderCfg(Cfg):
-    max_inline_depth = 3
+    max_inline_depth = 6  # read_events -> simulate -> per-listing helper -> per-entry helper -> _add_watch -> _set_watch_path
     no_inline = {"_parse_event_buffer", "_raise_error", "_close_resources", "_check_inotify_fd"}
 
     def __init__(self, program: Program, fault: bool = False, key_errors: bool = False):
